@@ -90,7 +90,7 @@ func init() {
 	register(&PropDef{
 		ID:    "C45",
 		Pkgs:  []string{xdsrsrc},
-		Claim: "Decides the structural part: in the xDS resource unmarshalling code every direct field selection on a pointer to a generated proto message is on a value that cannot be nil there (freshly allocated, matched by a type-switch arm, or dominated by a nil check) or belongs to the reviewed table of values that protobuf decoding never leaves nil (elements of repeated fields, the message just unmarshalled); everything else goes through the nil-safe Get accessors; every type switch over a proto oneof in these files fails closed (the arm where no known wrapper matched cannot reach a success return); the EDS parser's success return is guarded by: locality id present, per-priority locality weight sum kept in uint64 and checked against MaxUint32 after each addition, duplicate (priority, locality) rejected by check-then-insert, priorities contiguous from 0, endpoint weight non-zero, per-locality endpoint weight sum checked the same way, duplicate endpoint address rejected by check-then-insert; routes need a path specifier and a supported action, weighted clusters reject total weight 0 and sums above MaxUint32. A client-side listener with non-zero xff_num_trusted_hops, original-IP detection extensions, a foreign RDS config source or an empty route configuration name is never accepted; every route of a virtual host is considered; a route with an unknown (or optional unsupported) cluster specifier is never collected.",
+		Claim: "Decides the structural part: in the xDS resource unmarshalling code every direct field selection on a pointer to a generated proto message is on a value that cannot be nil there (freshly allocated, matched by a type-switch arm, or dominated by a nil check) or belongs to the reviewed table of values that protobuf decoding never leaves nil (elements of repeated fields, the message just unmarshalled); everything else goes through the nil-safe Get accessors; every type switch over a proto oneof in these files fails closed (the arm where no known wrapper matched cannot reach a success return); the EDS parser's success return is guarded by: locality id present, per-priority locality weight sum kept in uint64 and checked against MaxUint32 after each addition, duplicate (priority, locality) rejected by check-then-insert, priorities contiguous from 0, endpoint weight non-zero, per-locality endpoint weight sum checked the same way, duplicate endpoint address rejected by check-then-insert; routes need a path specifier and a supported action, weighted clusters reject total weight 0 and sums above MaxUint32. A client-side listener with non-zero xff_num_trusted_hops, original-IP detection extensions, a foreign RDS config source or an empty route configuration name is never accepted; every route of a virtual host is considered; a route with an unknown (or optional unsupported) cluster specifier is never collected. Server-side listeners are rejected on the stated defect arms (Rejects).",
 		NotDecided:  []string{"totality for arbitrary bytes (would need a whole-parser proof including protobuf-go)", "determinism", "every documented invariant of CDS/LDS updates (only the listed EDS/RDS guards are decided)"},
 		Assumptions: []string{"proto.Unmarshal never stores nil elements in repeated message fields and never leaves the target message nil"},
 		Technique:   "static analysis: nil-safety discipline over all field selections on proto message pointers (go/ssa + must-hold nil-check facts, reviewed exception table), fail-closed check of type switches, dominating guards / check-then-insert / accumulator-width checks for the listed invariants",
